@@ -571,7 +571,13 @@ func (op *ShellOperator) taskHandleHookRun(t task.Task) queue.TaskResult {
 			}
 		}
 		if shouldCombine {
-			combineResult := op.combineBindingContextForHook(op.TaskQueues, op.TaskQueues.GetByName(t.GetQueueName()), t, nil)
+			// A failed run of combined tasks is handled with allowFailure of the head task,
+			// so combine only tasks with the same allowFailure: binding contexts
+			// of a binding that does not allow failure should not be dropped.
+			stopCombineFn := func(tsk task.Task) bool {
+				return task_metadata.HookMetadataAccessor(tsk).AllowFailure != hookMeta.AllowFailure
+			}
+			combineResult := op.combineBindingContextForHook(op.TaskQueues, op.TaskQueues.GetByName(t.GetQueueName()), t, stopCombineFn)
 			if combineResult != nil {
 				hookMeta.BindingContext = combineResult.BindingContexts
 				// Extra monitor IDs can be returned if several Synchronization for Group are combined.
